@@ -216,6 +216,18 @@ def gen_memo(ctx: core.Ctx, rel="py/formak/cpp.py"):
                            msg=f"{q} caches `{ast.unparse(st.value)[:50]}...` under the key `{ast.unparse(key)[:60]}`, which does not contain the parameter(s) {missing} "
                                f"whole: two calls that differ only in the rest of {missing} (two sensors with the same reading names but different models) "
                                f"get the same cached block -- the second function returns the first one's expressions")
+            # a keyless memo `if self.X is None: self.X = V` (the cached-property idiom): V may read nothing but the instance
+            for st in ast.walk(fn):
+                if not (isinstance(st, ast.Assign) and len(st.targets) == 1 and isinstance(st.targets[0], ast.Attribute) and isinstance(st.targets[0].value, ast.Name)
+                        and st.targets[0].value.id == "self"):
+                    continue
+                val = res(st.value)
+                reads = [p_ for p_ in params if any(isinstance(x, ast.Name) and x.id == p_ for x in ast.walk(val))]
+                ws = [w_ for w_ in ws if w_.line != st.lineno]
+                ctx.oblige("GEN-MEMO", f"{rel}:{q}", f"keyless memo `{ast.unparse(st.targets[0])}`; the value reads {reads}", not reads,
+                           file=rel, func=q, construct="keyless memo:" + ast.unparse(st.targets[0]), line=st.lineno,
+                           msg=f"{q} keeps `{ast.unparse(st.value)[:50]}...` in `{ast.unparse(st.targets[0])}` for later calls although it depends on the parameter(s) {reads}: "
+                               f"a later call with other arguments (or a second emission that needs fresh one-shot generators) is handed the first call's result")
             for w_ in ws:
                 ctx.error(f"GEN-MEMO: {rel}:{w_.line} {q} stores on the instance (`{w_.text[:70]}`): not an enumerated idiom (memo with a whole-parameter key)")
     ctx.floor("GEN-MEMO", n, 15, "generator methods other than __init__")
